@@ -9,7 +9,10 @@
     what t's own writes in [d] left there, and shared locations still hold
     their initial value. *)
 
-From Coq Require Import List Arith Bool Lia.
+From Coq Require Import Arith Bool Lia.
+(* List is re-exported: Properties/C20.v states [isolation_prefix] with [++]
+   and imports only Conc and ConcFacts (Conc does not export List). *)
+From Coq Require Export List.
 Import ListNotations.
 From Age Require Import Conc.
 
